@@ -1090,3 +1090,22 @@ package twig
 //@   loop 3 invariant 0 <= i && i + j == len(runes) - 1
 //@ func renderVariableString props: C05
 //@   loop 1 invariant 0 <= start && start <= len(text)
+// comparison callbacks handed to package sort are called with indices of the slice being sorted
+// (documented contract of sort.Slice / SliceStable: assumption about the library, the callbacks
+// have no other caller)
+//@ func sortedMapKeys$1 props: C05
+//@   requires 0 <= i && i < len(keys) && 0 <= j && j < len(keys)
+//@ func (*CoreExtension).filterSort$1 props: C05
+//@   requires 0 <= i && i < len(result) && 0 <= j && j < len(result)
+//@ func evictLRUEntries$1 props: C05
+//@   requires 0 <= i && i < len(entries) && 0 <= j && j < len(entries)
+
+// ---------------------------------------------------------------- object invariants (C05)
+// an engine has its template map and an environment with its five maps from New() on; nothing
+// ever assigns these fields again
+//@ typeinv Engine props: C05
+//@   invariant x.environment != nil && x.templates != nil && x.environment.globals != nil && x.environment.filters != nil && x.environment.functions != nil && x.environment.tests != nil && x.environment.operators != nil
+//@   flag footprint Engine.environment Engine.templates Environment.globals Environment.filters Environment.functions Environment.tests Environment.operators
+//@ typeinv FileSystemLoader props: C05
+//@   invariant x.templatePaths != nil
+//@   flag footprint FileSystemLoader.templatePaths
